@@ -166,6 +166,7 @@ func mkHandleInstance(sc *Scenario) (*explorer.Instance, *runState) {
 	for _, c := range sc.Seed {
 		a := subst(c)
 		b := h.Exec(bg, rs.mgr, nil, h.B(a...)...)
+		settle(w)
 		if v, err := model.DecodeOne(b); err == nil && model.Known(a[0]) {
 			for _, o := range rs.seedKS.Apply(h.B(a...)) {
 				if n, why := o.Check(v); why == "" {
